@@ -43,7 +43,7 @@ META = dict(
           "vec_where", "vec_struct", "vec_forest", "map_smap", "map_lmap", "map_invalid_specs",
           "map_nondefault_axes"],
     quick=dict(cases=480, workers=8, budget_s=60),
-    thorough=dict(cases=6000, workers=16, budget_s=700),
+    thorough=dict(cases=4000, workers=16, budget_s=700),
     design_ref="DESIGN.md §5 C33",
     level_text="differential testing on generated pytrees / axis specifications; exploration, not exhaustive",
     level_note="trusts NumPy element-wise / reduction semantics and jax.vmap as references",
